@@ -29,7 +29,10 @@
 EXTENDS Integers, Sequences, FiniteSets, TLC, AsmRef
 
 CONSTANTS Dev_NearCallLo,        \* near call/tail encode %lo(offset)            (defect D1)
-          Dev_CompressPairJalr   \* the jalr of a far pair may become c.jr/c.jalr (defect D2)
+          Dev_CompressPairJalr,  \* the jalr of a far pair may become c.jr/c.jalr (defect D2)
+          Dev_PairLoFromSecond,  \* the second half of an auipc+jalr / lui+addi pair takes %lo of the value seen from ITSELF
+                                 \* (jalr: + 4 afterwards) instead of from the first half            (defects D19, D21)
+          Dev_CompressLiOffK     \* the one-instruction li of an offset to a constant may become c.li  (defect D20)
 
 \* instructions that have a 16-bit form, from the DECODER (literal equality with an RVC expansion) ...
 Eligible16 == {D16!Expand(D16!Dec16(h)) : h \in {x \in 0..65535 : D16!Legal(x)}}
@@ -50,13 +53,13 @@ Parse(prog) == [i \in 1..Len(prog) |->
     [] it.k = "brk" -> Mk("brabs", i, 4, None, it.m, it.a, it.b, "", "", it.n)
     [] it.k = "jalk" -> Mk("jalabs", i, 4, None, "jal", it.a, 0, "", "", it.n)
     [] it.k = "pjk" -> Mk("pseudo", i, 8, None, it.m, 0, 0, "", "", it.n) @@ [pk |-> "pjk", vb |-> 0, vc |-> 0]
-    [] it.k = "imml" -> Mk("imml", i, 4, None, it.m, it.a, it.b, it.t, it.f, it.n)
+    [] it.k = "imml" -> Mk("imml", i, 4, None, it.m, it.a, it.b, IF it.f = "offk" THEN "" ELSE it.t, it.f, it.n)
     [] it.k = "dw" -> Mk("dw", i, 4, None, "dw", 0, 0, it.t, it.f, it.n)
     [] it.k = "align" -> Mk("align", i, it.n, None, "", 0, 0, "", "", it.n)
     [] it.k \in {"data", "gap", "raw"} -> Mk("data", i, it.n, None, "", 0, 0, "", "", it.n)
     [] OTHER -> \* pseudo-instructions: pins pbr pj li lil
          Mk("pseudo", i, IF it.k \in {"li", "lil"} \/ (it.k = "pj" /\ it.m \in {"call", "tail"}) THEN 8 ELSE 4,
-            None, it.m, it.a, it.b, it.t, it.f, it.n) @@ [pk |-> it.k, vb |-> it.b, vc |-> it.c]]
+            None, it.m, it.a, it.b, IF it.f = "offk" THEN "" ELSE it.t, it.f, it.n) @@ [pk |-> it.k, vb |-> it.b, vc |-> it.c]]
 
 \* (one access to lbls[t] per level: TLC evaluates function constructors lazily, two accesses would make a chain of
 \*  k shrinks cost 2^k)
@@ -77,6 +80,7 @@ CompressedForm(it, pos, lbls) ==
                    /\ (lbls[it.t] - pos) % 2 = 0 /\ Between(lbls[it.t] - pos, -256, 255) -> [it EXCEPT !.k = "cbr", !.sz = 2]
     [] it.k = "jal" /\ it.a \in {0, 1} /\ (lbls[it.t] - pos) % 2 = 0 /\ Between(lbls[it.t] - pos, -2048, 2047) -> [it EXCEPT !.k = "cj", !.sz = 2]
     [] it.k = "jalrp" /\ Dev_CompressPairJalr /\ Lo(0, (lbls[it.t] - pos) % 65536) = 0 -> [it EXCEPT !.k = "cjr", !.sz = 2]
+    [] it.k = "imml" /\ Dev_CompressLiOffK /\ it.f = "s32:offk" /\ it.a # 0 /\ Between(it.n - pos, -32, 31) -> [it EXCEPT !.k = "cli", !.sz = 2]
     [] OTHER -> it
 RECURSIVE TC(_, _, _, _, _)
 TC(its, i, pos, lbls, out) ==
@@ -88,7 +92,8 @@ TC(its, i, pos, lbls, out) ==
 (* ---------------- transform_pseudo_instructions ---------------- *)
 \* value of a label expression on the CURRENT table (li's size decision)
 CurVal(it, pos, lbls) ==
-  CASE it.f = "bare" -> lbls[it.t] [] it.f = "pos" -> it.n + lbls[it.t] [] it.f = "off" -> lbls[it.t] - pos [] OTHER -> 0
+  CASE it.f = "bare" -> lbls[it.t] [] it.f = "pos" -> it.n + lbls[it.t] [] it.f = "off" -> lbls[it.t] - pos
+    [] it.f = "offk" -> it.n - pos [] OTHER -> 0
 Fits12(v) == v >= -2048 /\ v <= 2047
 \* signed value of a 32-bit pattern given as limbs, when it is small
 LimbSmall(hi, lo) == (hi = 0 /\ lo <= 2047) \/ (hi = 65535 /\ lo >= 63488)
@@ -128,7 +133,7 @@ ExpandOne(it, pos, lbls) ==
          IF Fits12(v)
          THEN [items |-> << Mk("imml", src, 4, None, "addi", it.a, 0, it.t, "s32:" \o it.f, it.n) >>, shrink |-> 4]   \* the value itself, range-checked at encode time
          ELSE [items |-> << Mk("imml", src, 4, None, "lui", it.a, 0, it.t, "hi:" \o it.f, it.n),
-                            Mk("imml", src, 4, None, "addi", it.a, it.a, it.t, "lo:" \o it.f, it.n) >>, shrink |-> 0]
+                            Mk("imml2", src, 4, None, "addi", it.a, it.a, it.t, "lo:" \o it.f, it.n) >>, shrink |-> 0]
 
 RECURSIVE TP(_, _, _, _, _)
 TP(its, i, pos, lbls, out) ==
@@ -150,14 +155,21 @@ RA(its, i, pos, lbls, out) ==
             RA(its, i + 1, pos + pad, Shrink(lbls, pos, it.n - pad), Append(out, [it EXCEPT !.k = "pad", !.sz = pad]))
 
 (* ---------------- resolve_immediates + resolve_instructions ---------------- *)
+BaseVal(it, pos, lbls) ==
+  IF it.f \in {"bare", "lo:bare", "hi:bare", "s32:bare"} THEN lbls[it.t]
+  ELSE IF it.f \in {"pos", "lo:pos", "hi:pos", "hipos", "lopos", "s32:pos"} THEN it.n + lbls[it.t]
+  ELSE IF it.f \in {"offk", "lo:offk", "hi:offk", "s32:offk"} THEN it.n - pos
+  ELSE lbls[it.t] - pos
 FinalVal(it, pos, lbls) ==
-  LET base == IF it.f \in {"bare", "lo:bare", "hi:bare", "s32:bare"} THEN lbls[it.t]
-              ELSE IF it.f \in {"pos", "lo:pos", "hi:pos", "hipos", "lopos", "s32:pos"} THEN it.n + lbls[it.t]
-              ELSE lbls[it.t] - pos
+  LET base == BaseVal(it, pos, lbls)
       lim == Limbs(base)
-  IN IF it.f \in {"lo:bare", "lo:pos", "lo:off", "lopos"} THEN Lo(lim[1], lim[2])
-     ELSE IF it.f \in {"hi:bare", "hi:pos", "hi:off", "hipos"} THEN Hi(lim[1], lim[2])
+  IN IF it.f \in {"lo:bare", "lo:pos", "lo:off", "lo:offk", "lopos"} THEN Lo(lim[1], lim[2])
+     ELSE IF it.f \in {"hi:bare", "hi:pos", "hi:off", "hi:offk", "hipos"} THEN Hi(lim[1], lim[2])
      ELSE base
+\* where the second half of a pair evaluates its immediate: at the first half (4 bytes back; the first halves - auipc, and
+\* the lui of a label- or position-dependent li - are never compressed), or, with the deviation, at itself
+PairPos(pos) == IF Dev_PairLoFromSecond THEN pos ELSE pos - 4
+PairLo(v) == Lo(Limbs(v)[1], Limbs(v)[2]) + (IF Dev_PairLoFromSecond THEN 4 ELSE 0)      \* the jalr's "+ 4 afterwards"
 EncodeOK(it, pos, lbls) ==
   LET off == IF it.t = "" THEN 0 ELSE lbls[it.t] - pos IN
   CASE it.k = "br" -> off % 2 = 0 /\ Between(off, -4096, 4095)
@@ -165,13 +177,15 @@ EncodeOK(it, pos, lbls) ==
     [] it.k = "jal" -> LET v == IF it.f = "lo" THEN Lo(Limbs(off)[1], Limbs(off)[2]) ELSE off IN v % 2 = 0 /\ Between(v, -1048576, 1048575)
     [] it.k = "cj" -> off % 2 = 0 /\ Between(off, -2048, 2047)
     [] it.k = "auipcabs" -> Between(Hi(Limbs(it.n - pos)[1], Limbs(it.n - pos)[2]), -524288, 524287)
-    [] it.k = "jalrpabs" -> LET v == Lo(Limbs(it.n - pos)[1], Limbs(it.n - pos)[2]) + 4 IN v % 2 = 0 /\ Between(v, -2048, 2047)
+    [] it.k = "jalrpabs" -> LET v == PairLo(it.n - PairPos(pos)) IN Between(v, -2048, 2047)
     [] it.k = "brabs" -> (it.n - pos) % 2 = 0 /\ Between(it.n - pos, -4096, 4095)
     [] it.k = "jalabs" -> (it.n - pos) % 2 = 0 /\ Between(it.n - pos, -1048576, 1048575)
     [] it.k = "auipc" -> Between(Hi(Limbs(off)[1], Limbs(off)[2]), -524288, 524287)
-    [] it.k = "jalrp" -> LET v == Lo(Limbs(off)[1], Limbs(off)[2]) + 4 IN v % 2 = 0 /\ Between(v, -2048, 2047)
+    [] it.k = "jalrp" -> LET v == PairLo(lbls[it.t] - PairPos(pos)) IN Between(v, -2048, 2047)
     [] it.k = "imml" -> LET v == FinalVal(it, pos, lbls) IN
                         IF it.m \in UType THEN Between(v, -524288, 1048575) ELSE Fits12(v)
+    [] it.k = "imml2" -> Fits12(FinalVal(it, PairPos(pos), lbls))
+    [] it.k = "cli" -> Between(FinalVal(it, pos, lbls), -32, 31)
     [] OTHER -> TRUE
 RECURSIVE FirstBad(_, _, _, _)
 FirstBad(its, i, pos, lbls) ==
@@ -203,10 +217,23 @@ TargetsFrom(its, i, pos, lbls) ==
   ELSE LET it == its[i]
            off == IF it.t = "" THEN 0 ELSE lbls[it.t] - pos
            ok == CASE it.k = "jal" /\ it.f = "lo" -> Lo(Limbs(off)[1], Limbs(off)[2]) = off
-                   [] it.k = "jalrp" -> \* the pair: auipc at pos - 4 adds Hi(off_auipc) << 12; jalr adds Lo(off_here) + 4
-                        LET oa == lbls[it.t] - (pos - 4) IN Hi(Limbs(oa)[1], Limbs(oa)[2]) * 4096 + Lo(Limbs(off)[1], Limbs(off)[2]) + 4 = oa
+                   [] it.k = "jalrp" -> \* the pair: auipc at pos - 4 adds Hi(off_auipc) << 12; jalr adds its own immediate
+                        LET oa == lbls[it.t] - (pos - 4) IN Hi(Limbs(oa)[1], Limbs(oa)[2]) * 4096 + PairLo(lbls[it.t] - PairPos(pos)) = oa
                    [] it.k = "cjr" -> LET oa == lbls[it.t] - (pos - 4) IN Hi(Limbs(oa)[1], Limbs(oa)[2]) * 4096 = oa
                    [] OTHER -> TRUE
        IN ok /\ TargetsFrom(its, i + 1, pos + it.sz, lbls)
 ModelTargetExact(prog, r) == r.status = "ok" => TargetsFrom(r.items, 1, 0, r.labels)
+\* every two-instruction li of a label expression rebuilds the expression's value AS SEEN FROM THE li (its first instruction)
+RECURSIVE ValuesFrom(_, _, _, _)
+ValuesFrom(its, i, pos, lbls) ==
+  IF i > Len(its) THEN TRUE
+  ELSE LET it == its[i]
+           ok == IF it.k = "imml2"
+                 THEN LET want == BaseVal(it, pos - 4, lbls)
+                          hv == FinalVal(its[i - 1], pos - 4, lbls)
+                          lv == FinalVal(it, PairPos(pos), lbls)
+                      IN hv * 4096 + lv = want      \* (values of this model are small: no wrap)
+                 ELSE TRUE
+       IN ok /\ ValuesFrom(its, i + 1, pos + it.sz, lbls)
+ModelValuesExact(prog, r) == r.status = "ok" => ValuesFrom(r.items, 1, 0, r.labels)
 =============================================================================
